@@ -259,6 +259,7 @@ class C10(Prop):
 
     def gen_cfg(self, rng, seed):
         cfg = gen.gen_base_cfg(rng, seed, nwatch=(1, 2, 2, 3),
+                               max_age_p=0.12,
                                kinds=('obedient', 'slow', 'stubborn',
                                       'selfexit'))
         for wc in cfg['watchers']:
@@ -276,6 +277,9 @@ class C10(Prop):
             s = rng.randrange(1, 8)
             cfg['signal_fail'] = {str(s + i): 1 for i in range(rng.choice(
                 [1, 1, 2]))}
+            for wc in cfg['watchers']:
+                wc['opts'].pop('max_age', None)
+                wc['opts'].pop('max_age_variance', None)
         return cfg
 
     def gen_ini_case(self, rng, seed):
